@@ -140,12 +140,21 @@ impl Runtime {
         self.cont = State::Stopped;
         if line.is_empty() {
             if self.listing.remove(line.number()).is_some() {
-                self.dirty = true;
+                self.program_changed();
             }
         } else {
             self.listing.insert(line);
-            self.dirty = true;
+            self.program_changed();
         }
+    }
+
+    /// The listing was edited: recompile before the next run and drop
+    /// everything that points into the old program.
+    fn program_changed(&mut self) {
+        self.dirty = true;
+        self.cont = State::Stopped;
+        self.stack.clear();
+        self.functions.clear();
     }
 
     fn enter_inkey(&mut self, mut string: &str) {
@@ -622,7 +631,7 @@ impl Runtime {
             return Err(error!(IllegalFunctionCall));
         }
         if self.listing.remove_range(from..=to) {
-            self.dirty = true;
+            self.program_changed();
             self.state = State::Stopped;
         }
         Ok(self.r#end())
